@@ -2061,3 +2061,438 @@ func (g *EffGraph) stableObligations() []*EffObl {
 	}
 	return out
 }
+
+// ---------------------------------------------------------------------------
+// C05: every loop of the library is metered or bounded by what exists
+// ---------------------------------------------------------------------------
+// "No single operation, whatever size parameters it is given, runs unmetered":
+// for every loop of every function of the library packages (the code a Lua
+// program drives with its arguments), one of the following holds, decided
+// structurally on go/ssa:
+//   charged   a call that always advances the CPU or memory counter (or the
+//             pattern / unpack / marshal budget) lies on every path round the
+//             loop (it dominates each back edge);
+//   ranged    the loop is a `range` over a slice, string, map or channel that
+//             already exists (its trip count is bounded by memory the context
+//             holds, which was itself charged);
+//   constant  the loop condition compares the induction variable with a
+//             compile-time constant.
+// Anything else is reported: its trip count is driven by a value the program
+// chooses.  A function "always charges" when a charging call dominates all its
+// returns (fixpoint over the module call graph).
+
+func (g *EffGraph) chargePrimitive(fn *ssa.Function) bool {
+	if fn == nil {
+		return false
+	}
+	switch fn.Name() {
+	case "RequireCPU", "requireCPU", "RequireMem", "requireMem", "RequireBytes", "RequireSize", "RequireArrSize", "LinearRequire", "consumeBudget":
+		return g.inModule[fn]
+	}
+	return false
+}
+
+func (g *EffGraph) alwaysCharges() map[*ssa.Function]bool {
+	charges := map[*ssa.Function]bool{}
+	for _, fn := range g.funcs {
+		if g.chargePrimitive(fn) {
+			charges[fn] = true
+		}
+	}
+	changed := true
+	for changed {
+		changed = false
+		for _, fn := range g.funcs {
+			if charges[fn] || len(fn.Blocks) == 0 {
+				continue
+			}
+			// blocks containing a charging call
+			var chargeBlocks []*ssa.BasicBlock
+			for _, b := range fn.Blocks {
+				for _, in := range b.Instrs {
+					if ci, ok := in.(ssa.CallInstruction); ok {
+						if _, isDefer := in.(*ssa.Defer); isDefer {
+							continue
+						}
+						if _, isGo := in.(*ssa.Go); isGo {
+							continue
+						}
+						if cal := ci.Common().StaticCallee(); cal != nil && charges[cal] {
+							chargeBlocks = append(chargeBlocks, b)
+							break
+						}
+					}
+				}
+			}
+			if len(chargeBlocks) == 0 {
+				continue
+			}
+			all := true
+			nret := 0
+			for _, b := range fn.Blocks {
+				if len(b.Instrs) == 0 {
+					continue
+				}
+				if _, isRet := b.Instrs[len(b.Instrs)-1].(*ssa.Return); !isRet {
+					continue
+				}
+				ret := b.Instrs[len(b.Instrs)-1].(*ssa.Return)
+				// a return that reports an error ends the caller's loop as well (the library
+				// propagates errors): it does not need a charge of its own
+				if n := len(ret.Results); n > 0 {
+					if types.Identical(ret.Results[n-1].Type(), types.Universe.Lookup("error").Type()) {
+						if c, isC := ret.Results[n-1].(*ssa.Const); !isC || !c.IsNil() {
+							continue
+						}
+					}
+				}
+				nret++
+				dom := false
+				for _, cb := range chargeBlocks {
+					if cb.Dominates(b) {
+						dom = true
+					}
+				}
+				if !dom {
+					all = false
+				}
+			}
+			if all && nret > 0 {
+				charges[fn] = true
+				changed = true
+			}
+		}
+	}
+	return charges
+}
+
+func (g *EffGraph) meterObligations(scope func(string) bool) []*EffObl {
+	var out []*EffObl
+	charges := g.alwaysCharges()
+	nloops := 0
+	// `effects unmetered-loop K`: loop K of the function is known not to be metered (a recorded finding)
+	declaredUnmetered := map[*ssa.Function]map[int]bool{}
+	declaredMetered := map[*ssa.Function]map[int]bool{}
+	for _, ct := range g.eng.all {
+		for _, cl := range ct.byKind("effects") {
+			// `effects metered-loop K`: accepted only when the contract has an invariant of that
+			// loop that mentions a ghost counter (the proof obligation lives there)
+			if i := strings.Index(cl.Text, "metered-loop"); i >= 0 && !strings.Contains(cl.Text, "unmetered-loop") {
+				if fn := g.eng.findFunc(ct.PkgPath, ct.Key); fn != nil {
+					k := 0
+					fmt.Sscanf(strings.TrimSpace(cl.Text[i+len("metered-loop"):]), "%d", &k)
+					for _, inv := range ct.Clauses {
+						if inv.Kind == "invariant" && inv.Loop == k && strings.Contains(inv.Text, "ghost(") {
+							if declaredMetered[fn] == nil {
+								declaredMetered[fn] = map[int]bool{}
+							}
+							declaredMetered[fn][k] = true
+						}
+					}
+				}
+			}
+			if i := strings.Index(cl.Text, "unmetered-loop"); i >= 0 {
+				if fn := g.eng.findFunc(ct.PkgPath, ct.Key); fn != nil {
+					k := 0
+					fmt.Sscanf(strings.TrimSpace(cl.Text[i+len("unmetered-loop"):]), "%d", &k)
+					if declaredUnmetered[fn] == nil {
+						declaredUnmetered[fn] = map[int]bool{}
+					}
+					declaredUnmetered[fn][k] = true
+				}
+			}
+		}
+	}
+	for _, fn := range g.funcs {
+		root := fn
+		for root.Parent() != nil {
+			root = root.Parent()
+		}
+		if root.Pkg == nil || len(fn.Blocks) == 0 {
+			continue
+		}
+		pp := root.Pkg.Pkg.Path()
+		if !strings.Contains(pp, "/lib/") || !scope(pp) || strings.HasSuffix(pp, "/goimports") {
+			continue
+		}
+		if isInitFunc(root) || strings.HasPrefix(fn.Name(), "verifFrag_") {
+			continue // (generated fragment wrappers repeat loops of their source function)
+		}
+		// natural loops: header h with a back edge p->h (h dominates p)
+		ord := 0
+		for _, h := range fn.Blocks {
+			var backs []*ssa.BasicBlock
+			for _, p := range h.Preds {
+				if h.Dominates(p) {
+					backs = append(backs, p)
+				}
+			}
+			if len(backs) == 0 {
+				continue
+			}
+			ord++
+			nloops++
+			// loop body: blocks that reach a back edge source without leaving through h
+			body := map[*ssa.BasicBlock]bool{h: true}
+			var stack []*ssa.BasicBlock
+			for _, b := range backs {
+				if !body[b] {
+					body[b] = true
+					stack = append(stack, b)
+				}
+			}
+			for len(stack) > 0 {
+				b := stack[len(stack)-1]
+				stack = stack[:len(stack)-1]
+				for _, p := range b.Preds {
+					if !body[p] {
+						body[p] = true
+						stack = append(stack, p)
+					}
+				}
+			}
+			kind := ""
+			// ranged
+			for _, in := range h.Instrs {
+				if phi, ok := in.(*ssa.Phi); ok {
+					if _, _, ok := rangeIndexPhi(phi); ok {
+						kind = "ranged"
+					}
+				}
+			}
+			for b := range body {
+				for _, in := range b.Instrs {
+					if _, ok := in.(*ssa.Next); ok {
+						kind = "ranged" // range over a map or string
+					}
+					if u, ok := in.(*ssa.UnOp); ok && u.Op == token.ARROW {
+						kind = "ranged" // receives from a channel: paced by the sender
+					}
+				}
+			}
+			// charged: a charging call in a block of the body that dominates every back edge source
+			if kind == "" {
+				for b := range body {
+					hasCharge := false
+					for _, in := range b.Instrs {
+						if ci, ok := in.(ssa.CallInstruction); ok {
+							if _, isDefer := in.(*ssa.Defer); isDefer {
+								continue
+							}
+							if cal := ci.Common().StaticCallee(); cal != nil && charges[cal] {
+								hasCharge = true
+							}
+						}
+					}
+					if !hasCharge {
+						continue
+					}
+					domAll := true
+					for _, p := range backs {
+						if !b.Dominates(p) {
+							domAll = false
+						}
+					}
+					if domAll {
+						kind = "charged"
+					}
+				}
+			}
+			// length-bounded: an exit test compares a stepped variable with the length of an
+			// object that exists (len(x), possibly +/- a constant or halved/doubled)
+			if kind == "" {
+				for b := range body {
+					if len(b.Instrs) == 0 {
+						continue
+					}
+					ifi, ok := b.Instrs[len(b.Instrs)-1].(*ssa.If)
+					if !ok {
+						continue
+					}
+					leaves := false
+					for _, sc := range b.Succs {
+						if !body[sc] {
+							leaves = true
+						}
+					}
+					if !leaves {
+						continue
+					}
+					if cmp, ok := ifi.Cond.(*ssa.BinOp); ok && (cmp.Op == token.LSS || cmp.Op == token.LEQ || cmp.Op == token.GTR || cmp.Op == token.GEQ) {
+						if (fromLen(cmp.Y, 0) && steppedVar(cmp.X, h)) || (fromLen(cmp.X, 0) && steppedVar(cmp.Y, h)) {
+							kind = "length-bounded"
+						}
+						// an 8-bit counter compared with an 8-bit bound: at most 256 iterations
+						if bt, ok := cmp.X.Type().Underlying().(*types.Basic); ok && (bt.Kind() == types.Uint8 || bt.Kind() == types.Int8) && (cmp.Op == token.LSS || cmp.Op == token.GTR) {
+							if steppedVar(cmp.X, h) || steppedVar(cmp.Y, h) {
+								kind = "constant"
+							}
+						}
+					}
+				}
+			}
+			// constant bound: header (or a body block ending in If) compares with a constant
+			if kind == "" {
+				for b := range body {
+					if len(b.Instrs) == 0 {
+						continue
+					}
+					ifi, ok := b.Instrs[len(b.Instrs)-1].(*ssa.If)
+					if !ok {
+						continue
+					}
+					leaves := false
+					for _, s := range b.Succs {
+						if !body[s] {
+							leaves = true
+						}
+					}
+					if !leaves {
+						continue
+					}
+					if cmp, ok := ifi.Cond.(*ssa.BinOp); ok {
+						_, cx := cmp.X.(*ssa.Const)
+						_, cy := cmp.Y.(*ssa.Const)
+						if (cx || cy) && (cmp.Op == token.LSS || cmp.Op == token.LEQ || cmp.Op == token.GTR || cmp.Op == token.GEQ || cmp.Op == token.NEQ) {
+							// the other side must be an induction variable stepping by a constant
+							other := cmp.X
+							if cx {
+								other = cmp.Y
+							}
+							if steppedByConst(other, h) {
+								kind = "constant"
+							}
+						}
+					}
+				}
+			}
+			name := fmt.Sprintf("%s/effect:metered-loop#%d", effName(fn), ord)
+			o := &EffObl{Name: name, Kind: "effect", Pos: relPos(g.eng, g.eng.fset.Position(h.Instrs[0].Pos())),
+				Desc: "the loop is charged on every iteration, ranges over an existing object, or has a constant bound"}
+			if !o.validPos() {
+				for b := range body {
+					for _, in := range b.Instrs {
+						if in.Pos().IsValid() && !o.validPos() {
+							o.Pos = relPos(g.eng, g.eng.fset.Position(in.Pos()))
+						}
+					}
+				}
+			}
+			switch {
+			case declaredMetered[fn][ord]:
+				o.OK = true
+				o.Desc += " (charged in bulk before the loop: the bound on the iterations left is a loop invariant over the ghost counter in the function's contract, proved on the SMT side)"
+			case declaredUnmetered[fn][ord]:
+				o.Witness = "loop at " + o.Pos + " is declared unmetered: its trip count is not bounded by a charge, an existing object or a constant"
+			case kind != "":
+				o.OK = true
+				o.Desc += " (" + kind + ")"
+			default:
+				// bulk charges before the loop, bounds held in struct fields etc.: not decidable structurally
+				o.Undecided = "loop at " + o.Pos + ": no charging call on every iteration, not a range, no length or constant bound recognised"
+			}
+			out = append(out, o)
+		}
+	}
+	out = append(out, &EffObl{Name: "effects/library-loops-found", Kind: "cover", Desc: fmt.Sprintf("vacuity guard: %d loops analysed", nloops), OK: nloops > 50})
+	return out
+}
+
+func (o *EffObl) validPos() bool { return o.Pos != "" && !strings.HasPrefix(o.Pos, "-") && !strings.HasSuffix(o.Pos, ":0") }
+
+// steppedByConst: v is a header phi of h (or derived from one by +/- const) whose
+// loop-carried value is itself plus or minus a constant.
+func steppedByConst(v ssa.Value, h *ssa.BasicBlock) bool {
+	for depth := 0; depth < 4; depth++ {
+		switch x := v.(type) {
+		case *ssa.Phi:
+			if x.Block() != h {
+				return false
+			}
+			for _, e := range x.Edges {
+				if bo, ok := e.(*ssa.BinOp); ok && (bo.Op == token.ADD || bo.Op == token.SUB) {
+					if _, isC := bo.Y.(*ssa.Const); isC && bo.X == x {
+						return true
+					}
+				}
+			}
+			return false
+		case *ssa.BinOp:
+			if _, isC := x.Y.(*ssa.Const); isC && (x.Op == token.ADD || x.Op == token.SUB) {
+				v = x.X
+				continue
+			}
+			return false
+		case *ssa.Convert:
+			v = x.X
+			continue
+		default:
+			return false
+		}
+	}
+	return false
+}
+
+// fromLen: the value is len(x) of a slice, string, array or map, adjusted by
+// constants (x +/- c, x * c, x / c, conversions).
+func fromLen(v ssa.Value, depth int) bool {
+	if depth > 4 {
+		return false
+	}
+	switch x := v.(type) {
+	case *ssa.Call:
+		if bi, ok := x.Call.Value.(*ssa.Builtin); ok && (bi.Name() == "len" || bi.Name() == "cap") {
+			return true
+		}
+	case *ssa.BinOp:
+		_, cx := x.X.(*ssa.Const)
+		_, cy := x.Y.(*ssa.Const)
+		switch x.Op {
+		case token.ADD, token.SUB, token.MUL, token.QUO, token.SHR, token.SHL:
+			if cy {
+				return fromLen(x.X, depth+1)
+			}
+			if cx {
+				return fromLen(x.Y, depth+1)
+			}
+		}
+	case *ssa.Convert:
+		return fromLen(x.X, depth+1)
+	case *ssa.Phi:
+		for _, e := range x.Edges {
+			if e != x && !fromLen(e, depth+1) {
+				return false
+			}
+		}
+		return len(x.Edges) > 0
+	}
+	return false
+}
+
+// steppedVar: derived from a header phi of h that steps by a constant (i, i+1, 2*i, l-i with l from len).
+func steppedVar(v ssa.Value, h *ssa.BasicBlock) bool {
+	for depth := 0; depth < 5; depth++ {
+		switch x := v.(type) {
+		case *ssa.Phi:
+			return steppedByConst(x, h)
+		case *ssa.BinOp:
+			_, cx := x.X.(*ssa.Const)
+			_, cy := x.Y.(*ssa.Const)
+			if cy {
+				v = x.X
+				continue
+			}
+			if cx {
+				v = x.Y
+				continue
+			}
+			return false
+		case *ssa.Convert:
+			v = x.X
+			continue
+		default:
+			return false
+		}
+	}
+	return false
+}
